@@ -60,7 +60,7 @@ def main(tier, seed):
                 ops_ = [t for t in prog.types() if t.kind == "opaque"]
                 if ops_:
                     ops_[0].attrs.insert(0, "#[diplomat::rust_link(baz, FnInStruct)]")
-            if i % 50 == 11 and b == "c":
+            if i % 50 == 11 and not tooltier.profiles.support(b).get("namespacing"):
                 # directed probe (known finding F56): two bridge modules declaring a type of the same identifier (legal Rust; C has no namespaces)
                 tooltier.same_name_namespaced(prog, random.Random("c15same/%s/%s" % (seed, i)))
             if i % 50 == 9 and b in ("dart", "kotlin"):
